@@ -7,8 +7,9 @@ import PxModel.Generated
   proxy/http/server/plugin.py (`serve_static_file`) and
   proxy/http/responses.py (`okResponse`) + `build_http_response`.
 
-  Paths are Python `str`s, modelled as `List Char` (what `text_(path)` returns;
-  UTF-8 decoding is the parameter `Env.utf8`).  `normpath` is a model of
+  Request paths arrive as bytes; `utf8Decode` models `bytes.decode('utf-8')`
+  (strict: shortest form only, no surrogates, at most U+10FFFF).  After the
+  decoding paths are Python `str`s, modelled as `List Char`.  `normpath` is a model of
   CPython's `posixpath.normpath` (the `os.path.normpath` the code calls).
   The file system, `mimetypes.guess_type` and `gzip.compress` are parameters.
   Symbolic links are outside the model: `fs` is keyed by the lexical path
@@ -85,8 +86,6 @@ def decide (dir path : Str) : Decision :=
 
 /-- environment parameters of the model -/
 structure Env where
-  /-- `text_(bytes)`: `none` = UnicodeDecodeError -/
-  utf8 : Bytes → Option Str
   /-- regular-file contents by the exact string given to `open(path, 'rb')`;
       `none` = `OSError` (missing, directory, not a directory, …) -/
   fs : Str → Option Bytes
@@ -130,8 +129,8 @@ def Ok.pkt (r : Ok) : Bytes :=
   (r.headers.map headerLine).flatten ++ Gen.crlf ++ r.body
 
 inductive Outcome
-  /-- a `ValueError` escapes (`text_` on non-UTF-8, `open` on an embedded NUL) -/
-  | exc (opened : Option Str)
+  /-- `BAD_REQUEST_RESPONSE_PKT` queued (request path is not UTF-8); nothing is routed or opened -/
+  | badRequest
   /-- `NOT_FOUND_RESPONSE_PKT` queued -/
   | notFound (opened : Option Str)
   | ok (opened : Str) (r : Ok)
@@ -139,19 +138,19 @@ inductive Outcome
 
 /-- the path handed to `open()`, if any -/
 def Outcome.opened : Outcome → Option Str
-  | .exc o => o
+  | .badRequest => none
   | .notFound o => o
   | .ok t _ => some t
 
 /-- bytes queued for the client -/
 def Outcome.pkt : Outcome → Option Bytes
-  | .exc _ => none
+  | .badRequest => some Gen.pkt_BAD_REQUEST_RESPONSE_PKT
   | .notFound _ => some Gen.pkt_NOT_FOUND_RESPONSE_PKT
   | .ok _ r => some r.pkt
 
 /-- `HttpWebServerBasePlugin.serve_static_file(target, mcl)` -/
 def serveFile (env : Env) (t : Str) : Outcome :=
-  if t.contains '\x00' then .exc (some t)     -- open(): ValueError('embedded null byte'), not an OSError
+  if t.contains '\x00' then .notFound (some t)   -- open(): ValueError('embedded null byte'), caught with OSError
   else match env.fs t with
     | none => .notFound (some t)
     | some c => .ok t (okResponse env t c)
@@ -166,16 +165,55 @@ structure Cfg where
   enableStatic : Bool
   dir : Str
 
+def isCont (c : UInt8) : Bool := 0x80 ≤ c && c ≤ 0xBF
+def lo6 (c : UInt8) : Nat := c.toNat - 0x80
+
+/-- `bytes.decode('utf-8')` (strict): `none` = UnicodeDecodeError.  Lead bytes
+    C0/C1 (overlong two-byte forms, e.g. `c0 ae` = '.', `c0 af` = '/'), E0 with a
+    second byte below A0 and F0 with a second byte below 90 (overlong three- and
+    four-byte forms), ED A0..BF (surrogates), F4 90.. and F5..FF (above
+    U+10FFFF), lone continuation bytes and truncated sequences are rejected. -/
+def utf8Decode : Bytes → Option Str
+  | [] => some []
+  | a :: rest =>
+    if a < 0x80 then (utf8Decode rest).map (Char.ofNat a.toNat :: ·)
+    else if a < 0xC2 then none
+    else if a < 0xE0 then
+      match rest with
+      | b1 :: r =>
+        if isCont b1 then (utf8Decode r).map (Char.ofNat ((a.toNat - 0xC0) * 64 + lo6 b1) :: ·) else none
+      | _ => none
+    else if a < 0xF0 then
+      match rest with
+      | b1 :: b2 :: r =>
+        if isCont b1 && isCont b2 && (a != 0xE0 || 0xA0 ≤ b1) && (a != 0xED || b1 ≤ 0x9F) then
+          (utf8Decode r).map (Char.ofNat ((a.toNat - 0xE0) * 4096 + lo6 b1 * 64 + lo6 b2) :: ·)
+        else none
+      | _ => none
+    else if a < 0xF5 then
+      match rest with
+      | b1 :: b2 :: b3 :: r =>
+        if isCont b1 && isCont b2 && isCont b3 && (a != 0xF0 || 0x90 ≤ b1) && (a != 0xF4 || b1 ≤ 0x8F) then
+          (utf8Decode r).map
+            (Char.ofNat ((a.toNat - 0xF0) * 262144 + lo6 b1 * 4096 + lo6 b2 * 64 + lo6 b3) :: ·)
+        else none
+      | _ => none
+    else none
+
+/-- `self.request.path or b'/'` -/
+def reqBytes : Option Bytes → Bytes
+  | none => b "/"
+  | some p => if p.isEmpty then b "/" else p
+
 /-- `on_request_complete` when no route is registered for the protocol
-    (`_try_route` is then a no-op; routes are C12's subject) -/
+    (`_try_route` is then a no-op; routes are C12's subject): a path that is
+    not UTF-8 is answered 400 before anything else happens -/
 def onRequestComplete (env : Env) (cfg : Cfg) (reqPath : Option Bytes) : Outcome :=
-  let path : Bytes := match reqPath with
-    | none => b "/"
-    | some p => if p.isEmpty then b "/" else p          -- `self.request.path or b'/'`
-  if !cfg.enableStatic then .notFound none
-  else match env.utf8 path with
-    | none => .exc none
-    | some s => serve env cfg.dir s
+  match utf8Decode (reqBytes reqPath) with
+  | none => .badRequest
+  | some s =>
+    if !cfg.enableStatic then .notFound none
+    else serve env cfg.dir s
 
 /-- `Url.from_bytes` + `HttpParser.http_handler_protocol`: a request reaches the
     web-server plugin iff its target starts with one `/` but not with `//`
